@@ -256,6 +256,7 @@ func init() {
 		return mkBool(h.state == gBlocked && !h.ready())
 	}
 	V("Quiesce", func(g *G, a []Value, pos token.Pos) Value { g.quiesce(); return nil })
+	V("QuiesceKeep", func(g *G, a []Value, pos token.Pos) Value { g.quiesceK(true); return nil })
 	V("RunOutClock", func(g *G, a []Value, pos token.Pos) Value {
 		for i := 0; ; i++ {
 			g.quiesce()
